@@ -26,9 +26,9 @@ func init() {
 		Assumptions: []string{"reflection-based canon with normal forms N1, N2, N6 only; instants compared at nanosecond precision by time.Equal"},
 		Bound: func(tier string) string {
 			if tier == "thorough" {
-				return "levels 0,1,2(q),saturated; depth 2 over all shapes at every item position; plus the scale dimension of C01 (boundary-length strings, lists of 17/33/65, large integers, empty neighbours, shared identities); IRI forms, generic type names and list forms as in C01"
+				return "levels 0,1,2(q),saturated; depth 2 over all shapes at every item position; plus the scale dimension of C01 (boundary-length strings, lists of 17/33/65, large integers, empty neighbours, shared identities); IRI forms, generic type names and list forms as in C01; families added after round 5: DESIGN.md 8.11"
 			}
-			return "levels 0,1,saturated; depth 2 over q shapes at every item position (package entry); plus the scale dimension of C01 (boundary-length strings, lists of 17/33/65, large integers, empty neighbours, shared identities); IRI forms, generic type names and list forms as in C01"
+			return "levels 0,1,saturated; depth 2 over q shapes at every item position (package entry); plus the scale dimension of C01 (boundary-length strings, lists of 17/33/65, large integers, empty neighbours, shared identities); IRI forms, generic type names and list forms as in C01; families added after round 5: DESIGN.md 8.11"
 		},
 		DeadlineQuick: 6 * time.Minute, DeadlineThorough: 45 * time.Minute,
 		Run: c03Run,
@@ -148,6 +148,7 @@ func c03Run(c *engine.Ctx) {
 		}
 	}
 	c03Scalars(c)
+	c03Histories(c)
 	universe.Scale(func(r universe.Recipe) { c03Case(c, r, "method") })
 	universe.IRIPresentations(func(r universe.Recipe) { c03Case(c, r, "pkg") })
 	moreFamilies(universe.Gob, func(r universe.Recipe) { c03Case(c, r, "pkg") })
@@ -171,6 +172,98 @@ func c03Run(c *engine.Ctx) {
 
 // c03Scalars round-trips the types that are not vocabulary structs through their own GobEncode/GobDecode and
 // MarshalBinary/UnmarshalBinary pairs, and top-level item lists through the package functions.
+// c03Histories: what is decoded must not depend on what was decoded before. Pairs of values that differ only in a string-typed
+// property (media type, type name, units, hrefLang, key material) whose two spellings collide under a common 32-bit hash, and pairs
+// whose ids collide: both are encoded, then decoded one after the other in both orders, through the package functions and the
+// methods (an interning table or cache keyed by a hash shows as the second value reading back as the first).
+func c03Histories(c *engine.Ctx) {
+	type mk func(s string) ap.Item
+	makers := []struct {
+		name string
+		mk   mk
+	}{
+		{"Object.mediaType", func(s string) ap.Item {
+			return &ap.Object{ID: "https://example.com/o", Type: ap.DocumentType, MediaType: ap.MimeType(s)}
+		}},
+		{"Link.mediaType", func(s string) ap.Item {
+			return &ap.Link{ID: "https://example.com/l", Type: ap.LinkType, Href: "https://example.com/h", MediaType: ap.MimeType(s)}
+		}},
+		{"Object.source.mediaType", func(s string) ap.Item {
+			return &ap.Object{ID: "https://example.com/o", Type: ap.NoteType, Source: ap.Source{MediaType: ap.MimeType(s), Content: ap.NaturalLanguageValues{{Ref: "-", Value: ap.Content("src")}}}}
+		}},
+		{"Place.units", func(s string) ap.Item {
+			return &ap.Place{ID: "https://example.com/p", Type: ap.PlaceType, Units: s, Radius: 3}
+		}},
+		{"Link.hrefLang", func(s string) ap.Item {
+			return &ap.Link{ID: "https://example.com/l", Type: ap.LinkType, Href: "https://example.com/h", HrefLang: ap.LangRef(s)}
+		}},
+		{"Actor.publicKeyPem", func(s string) ap.Item {
+			return &ap.Actor{ID: "https://example.com/a", Type: ap.PersonType, PublicKey: ap.PublicKey{ID: "https://example.com/a#k", Owner: "https://example.com/a", PublicKeyPem: s}}
+		}},
+		{"Object.name", func(s string) ap.Item {
+			return &ap.Object{ID: "https://example.com/o", Type: ap.NoteType, Name: ap.NaturalLanguageValues{{Ref: "-", Value: ap.Content(s)}}}
+		}},
+		{"Object.nameMap tag", func(s string) ap.Item {
+			return &ap.Object{ID: "https://example.com/o", Type: ap.NoteType, Name: ap.NaturalLanguageValues{{Ref: ap.LangRef(s), Value: ap.Content("x")}, {Ref: "fr", Value: ap.Content("y")}}}
+		}},
+		{"Object.id", func(s string) ap.Item { return &ap.Object{ID: ap.IRI("https://example.com/" + s), Type: ap.NoteType} }},
+		{"Object.attributedTo", func(s string) ap.Item {
+			return &ap.Object{ID: "https://example.com/o", Type: ap.NoteType, AttributedTo: ap.IRI("https://example.com/" + s)}
+		}},
+	}
+	var pairs [][2]string
+	pairs = append(pairs, universe.CollidingStrings()...)
+	for _, p := range universe.CollidingIDs() {
+		pairs = append(pairs, [2]string{string(p[0]), string(p[1])})
+	}
+	for _, m := range makers {
+		for k, p := range pairs {
+			if strings.HasPrefix(p[0], "https://") != (m.name == "Object.id" || m.name == "Object.attributedTo") {
+				continue
+			}
+			m, k, p := m, k, p
+			if strings.HasPrefix(p[0], "https://") {
+				p = [2]string{strings.TrimPrefix(p[0], "https://"), strings.TrimPrefix(p[1], "https://")}
+			}
+			class := "C03|gob-history|" + m.name
+			c.Do(class, func() string {
+				return fmt.Sprintf("%s = %q, then the same value with %q (the two collide under a 32-bit hash, pair #%d): each decodes to what was encoded, in both orders", m.name, p[0], p[1], k)
+			}, func(t *engine.T) {
+				t.Distinct(true)
+				for _, order := range [][2]int{{0, 1}, {1, 0}} {
+					for _, entry := range []string{"pkg", "binary"} {
+						var vals, back [2]ap.Item
+						var enc [2][]byte
+						for i := 0; i < 2; i++ {
+							vals[i] = m.mk(p[order[i]])
+							b, err := gobEncode(entry, vals[i])
+							if err != nil {
+								t.Fail(class+"|encode-error", "%v", err)
+								return
+							}
+							enc[i] = b
+						}
+						for i := 0; i < 2; i++ {
+							y, err := gobDecode(entry, reflect.TypeOf(vals[i]).Elem(), enc[i])
+							if err != nil {
+								t.Fail(class+"|decode-error", "%v", err)
+								return
+							}
+							back[i], _ = y.(ap.Item)
+						}
+						t.Ops(4)
+						for i := 0; i < 2; i++ {
+							if ds := canon.Diff(canon.Of(vals[i], canon.Gob), canon.Of(back[i], canon.Gob)); len(ds) > 0 {
+								t.Fail(class+"|value-"+[]string{"first", "second"}[i]+"-in-the-history-changed", "decoded #%d of the history (%s entry) differs from what was encoded: %s", i+1, entry, ds[0])
+							}
+						}
+					}
+				}
+			})
+		}
+	}
+}
+
 func c03Scalars(c *engine.Ctx) {
 	type sc struct {
 		name string
